@@ -173,7 +173,11 @@ def seeded_sweep(ctx, res, net, nx, tree_fn_name, orig_tree, lines=None, expect=
                     if seed < 2 and via == "config":
                         res.case({"shape": topology, "nodes": list(nl), "seed": seed}, nontrivial=n >= 3)
                     res.count("sweep:random_connected")
-        for k in (lo - 1, hi + 1):
+        # out of range on both sides, as SIGNED integers (the name parser accepts a minus sign): just outside,
+        # zero, far outside, and the negation of every admissible count
+        outside = sorted(set([lo - 1, hi + 1, 0, hi + 10, -1, -(hi + 1)] + [-kk for kk in range(lo, hi + 1)])
+                         - set(range(lo, hi + 1)))
+        for k in outside:
             for via in ("config", "direct"):
                 topology = "random_connected_%d" % k
                 if via == "config":
@@ -184,7 +188,19 @@ def seeded_sweep(ctx, res, net, nx, tree_fn_name, orig_tree, lines=None, expect=
                     fail("random_connected:accepts-out-of-range",
                          "%s over %d nodes should be rejected, got %s" % (topology, n, kind if d is None else canon(d)),
                          {"shape": topology, "nodes": list(nodes), "n": n, "k": k, "seed": 0, "via": via})
-                res.count("sweep:out-of-range")
+                elif via == "config":
+                    tie("rconn %d %s | |" % (k, " ".join(nodes)), "ValueError",
+                        {"shape": topology, "nodes": list(nodes), "n": n, "k": k, "seed": 0, "via": via})
+                res.count("sweep:out-of-range" if k >= 0 else "sweep:negative-count")
+        # names whose count does not parse must be refused with ValueError, never answered with a graph
+        for topology in ("random_connected", "random_connected_", "random_connected_x", "random_connected_2.0",
+                         "random_connected_%d_" % lo, "random_connected_--%d" % lo):
+            kind, d, _t, _p = call(lambda: net.construct_topology_config(topology, list(nodes)), 0)
+            if kind != "ValueError":
+                fail("random_connected:accepts-malformed-count",
+                     "%r over %d nodes should be rejected, got %s" % (topology, n, kind if d is None else canon(d)),
+                     {"shape": topology, "nodes": list(nodes), "n": n, "seed": 0, "via": "config"})
+            res.count("sweep:malformed-count")
         for seed in range(seeds):
             nl = alt if seed % 4 == 3 else nodes
             for via in (("config", "direct") if seed % 8 == 0 else ("config",)):
